@@ -540,7 +540,7 @@ package io
 // a decoder goes back to the pool with no input, no error, no references, no class table and
 // default options; the pool's New makes a zero Decoder, which is the same state
 //@ func FreeDecoder
-//@   prop C14
+//@   prop C14 C11
 //@   nopanic
 //@   requires decoder != nil
 //@   modifies decoder.simple, decoder.refer.ref, decoder.ref, decoder.reader, decoder.buf, decoder.head, decoder.tail, decoder.Error,
@@ -604,7 +604,7 @@ package io
 // an encoder goes back to the pool in reference mode with numbering at zero, nothing buffered,
 // nothing marked as flushed and no error
 //@ func FreeEncoder
-//@   prop C14
+//@   prop C14 C11
 //@   havoc
 //@   requires encoder != nil
 //@   atcall Put [encoder_is_clean_when_it_returns_to_the_pool] !encoder.simple && encoder.last == 0 && encoder.refer.last == 0 &&
